@@ -54,8 +54,74 @@ TypeCanonicalizer::TypeCanonicalizer(SemanticModel* semaModel, const SyntaxTree*
 void TypeCanonicalizer::canonicalizeTypes()
 {
     visit(tree_->rootNode());
+
+    // A declaration that isn't reached through a declarator (an unnamed
+    // bit-field, a declaration within an attribute or within an anonymous
+    // member, ...) must not be left holding a type that is discarded; the
+    // canonicalization of one may discard a type that another one holds.
+    const auto decls = semaModel_->declarations();
+    for (auto pending = discardedTys_.size() + 1; pending != discardedTys_.size();) {
+        pending = discardedTys_.size();
+        for (auto decl : decls)
+            canonicalizeTypeOf(decl);
+    }
+
     for (const auto& ty : discardedTys_)
         semaModel_->dropType(ty);
+}
+
+bool TypeCanonicalizer::refersToDiscardedType(const Type* ty) const
+{
+    if (!ty)
+        return false;
+    if (discardedTys_.count(ty))
+        return true;
+    switch (ty->kind()) {
+        case TypeKind::Array:
+            return refersToDiscardedType(ty->asArrayType()->elementType());
+        case TypeKind::Pointer:
+            return refersToDiscardedType(ty->asPointerType()->referencedType());
+        case TypeKind::Qualified:
+            return refersToDiscardedType(ty->asQualifiedType()->unqualifiedType());
+        case TypeKind::Function: {
+            auto funcTy = ty->asFunctionType();
+            if (refersToDiscardedType(funcTy->returnType()))
+                return true;
+            for (auto parmTy : funcTy->parameterTypes()) {
+                if (refersToDiscardedType(parmTy))
+                    return true;
+            }
+            return false;
+        }
+        default:
+            return false;
+    }
+}
+
+void TypeCanonicalizer::canonicalizeTypeOf(DeclarationSymbol* decl)
+{
+    switch (decl->category()) {
+        case DeclarationCategory::Type: {
+            if (decl->kind() != SymbolKind::TypedefDeclaration)
+                break;
+            auto tydefDecl = decl->asTypedefDeclaration();
+            auto ty = tydefDecl->synonymizedType();
+            if (refersToDiscardedType(ty))
+                tydefDecl->setSynonymizedType(canonicalize(ty, decl->enclosingScope()));
+            break;
+        }
+        case DeclarationCategory::Member:
+        case DeclarationCategory::Function:
+        case DeclarationCategory::Object: {
+            auto typeableDecl = MIXIN_TypeableDeclarationSymbol::from(decl);
+            if (!typeableDecl)
+                break;
+            auto ty = typeableDecl->type();
+            if (refersToDiscardedType(ty))
+                typeableDecl->setType(canonicalize(ty, decl->enclosingScope()));
+            break;
+        }
+    }
 }
 
 SyntaxVisitor::Action TypeCanonicalizer::visitTranslationUnit(const TranslationUnitSyntax* node)
